@@ -158,7 +158,13 @@ impl Array {
 
     fn index(&self, val: &Val) -> Result<Cow<'_, Val>, ValError> {
         match val {
-            Val::Number(n) => Ok(self.index_arr(*n as usize)),
+            Val::Number(n) => {
+                if *n >= 0.0 && n.fract() == 0.0 {
+                    Ok(self.index_arr(*n as usize))
+                } else {
+                    Ok(Cow::Owned(Val::Undefined))
+                }
+            }
             Val::Undefined => Ok(self.index_dict(&DictKeyRef::Undefined)),
             Val::Null => Ok(self.index_dict(&DictKeyRef::Null)),
             Val::Boolean(b) => Ok(self.index_dict(&DictKeyRef::Boolean(*b))),
@@ -179,9 +185,14 @@ impl Array {
 
     fn index_or_insert(&mut self, val: &Val) -> Result<&mut Val, ValError> {
         match val {
-            Val::Number(n) => self
-                .index_arr_or_insert(*n as usize)
-                .ok_or_else(|| ValError::InvalidKey(val.clone())),
+            Val::Number(n) => {
+                if *n >= 0.0 && n.fract() == 0.0 {
+                    self.index_arr_or_insert(*n as usize)
+                        .ok_or_else(|| ValError::InvalidKey(val.clone()))
+                } else {
+                    Err(ValError::InvalidKey(val.clone()))
+                }
+            }
             Val::Undefined => Ok(self.index_dict_or_insert(DictKey::Undefined)),
             Val::Null => Ok(self.index_dict_or_insert(DictKey::Null)),
             Val::Boolean(b) => Ok(self.index_dict_or_insert(DictKey::Boolean(*b))),
